@@ -19,9 +19,10 @@ CHAIN_IDS = ["A", "B", "C", "D", "X", "Y", "Z", "a", "b", "1", "2"]
 
 @st.composite
 def structure(draw, max_chains=3, nmax=6, wild=False, contact=True, waters=True, variants=0.2,
-              hyd=None, missing=False, names=None, nmin=1, oxt=None, start=None, icodes=False, cif=False):  # fmt: skip
-    nch = draw(st.integers(1, max_chains))
-    ids = draw(st.permutations(CHAIN_IDS))[:nch]
+              hyd=None, missing=False, names=None, nmin=1, oxt=None, start=None, icodes=False, cif=False,
+              min_chains=1, idpool=None):  # fmt: skip
+    nch = draw(st.integers(min_chains, max_chains))
+    ids = draw(st.permutations(idpool or CHAIN_IDS))[:nch]
     chains = []
     for ci in range(nch):
         ch = draw(strat.chain(cid=ids[ci], nmin=nmin, nmax=nmax, wild=wild, hyd=hyd,
@@ -66,11 +67,74 @@ def structure(draw, max_chains=3, nmax=6, wild=False, contact=True, waters=True,
             if ch["id"].strip() == "":
                 ch["id"] = "Z"
     if waters:
+        # waters usually have a chain id of their own; one time in five they carry the id of the first
+        # protein chain (listed after its TER - or BEFORE the chain when the order variant puts hetero
+        # records first: the chain then starts with a water)
+        wid = "W"
+        if not desc.get("cif") and draw(st.integers(0, 4)) == 0:
+            wid = chains[0]["id"]
         desc["waters"] = [
-            dict(draw(strat.water()), chain="W", seq=300 + k)
+            dict(draw(strat.water()), chain=wid, seq=300 + k)
             for k in range(draw(st.integers(0, 3)))
         ]
     return desc
+
+
+@st.composite
+def strands(draw, kmax=2):
+    """1-2 DNA / RNA strands (descriptors for build.strand_records)."""
+    out = []
+    for k in range(draw(st.integers(1, kmax))):
+        dna = draw(st.booleans())
+        n = draw(st.integers(2, 6))
+        seq = "".join(draw(st.lists(st.sampled_from("ACGT" if dna else "ACGU"), min_size=n, max_size=n)))
+        out.append(dict(id="NM"[k], dna=dna, seq=seq, p5=draw(st.booleans()), newnames=draw(st.booleans()),
+                        style=draw(st.sampled_from(["bare", "R"])), start=draw(st.sampled_from([1, 10, 101])),
+                        stars=draw(st.sampled_from([0, 0, 1, 2])), shuffle=draw(st.sampled_from([0, 0, 7, 19, 402])),
+                        jitter=draw(st.sampled_from([0.0, 0.0, 0.03])), q=draw(strat.quat())))  # fmt: skip
+    return out
+
+
+MANY_IDS = list("ABCDEFGHIJKLMNOPQRSTUVWXYZabcdefghijklmnopqrstuvwxyz0123456789")
+
+
+@st.composite
+def big_structure(draw, **kw):
+    """Structures outside the size / content envelope of `structure`: protein chains and nucleic-acid
+    strands in ONE file (`mixed`), many chains (4-9, or 27-30: more than the alphabet), one long chain
+    (10-24 residues).  desc["big"] names the kind."""
+    kind = draw(st.sampled_from(["mixed", "mixed", "mixed", "many", "many", "alphabet", "long", "long"]))
+    if kind == "mixed":
+        desc = draw(structure(max_chains=2, nmax=4, contact=False, variants=0.3, **kw))
+        desc["na"] = draw(strands())
+        for ch in desc["chains"]:
+            if ch["id"] in ("N", "M"):
+                ch["id"] = "P"
+    elif kind == "many":
+        desc = draw(structure(min_chains=4, max_chains=9, nmax=3, contact=False, variants=0.3, idpool=MANY_IDS, **kw))
+    elif kind == "alphabet":
+        desc = draw(structure(min_chains=27, max_chains=30, nmax=2, contact=False, variants=0.3, idpool=MANY_IDS, **kw))
+        desc["waters"] = desc.get("waters", [])[:1]
+    else:
+        desc = draw(structure(max_chains=1, nmin=10, nmax=24, contact=False, variants=0.25, **kw))
+    if len(desc["chains"]) > 3:
+        # chains of a large assembly laid out on a grid (no accidental contacts)
+        for ci, ch in enumerate(desc["chains"]):
+            ch.pop("contact", None)
+            ch["shift"] = [45.0 * (ci % 6), 45.0 * (ci // 6), float(ch.get("shift", [0, 0, 0])[2])]
+    for ch in desc["chains"]:
+        if ch.get("extra") and ch.get("oxt"):
+            ch.pop("extra")  # (undefined atoms with nothing to repair: pdb2pqr fails loudly, see C12)
+    desc["big"] = kind
+    return desc
+
+
+def big_ff(draw, desc):
+    """A force field that defines every residue class of the descriptor."""
+    na = desc.get("na") or []
+    if not na:
+        return draw(st.sampled_from(strat.FFS))
+    return draw(st.sampled_from(["AMBER", "CHARMM", "TYL06"] + ([] if any(x["dna"] for x in na) else ["PARSE"])))
 
 
 @st.composite
